@@ -414,10 +414,17 @@ def oracle_name(fn):
     return "o." + fn
 
 
-def run_stream(stream, seed, n, oracle_fns, shards=None):
+def run_stream(stream, seed, n, oracle_fns, shards=None, prep=None):
     t0 = time.time()
     sr = StreamResult(stream)
     ops = corpus_ops(stream) + gen_ops(stream, seed, n)
+    if prep:
+        # the generator emitted CASES; the Lean spec writer (driver op `w.<fn>`) expands each into the op proper
+        expanded = sharded([DRIVER], [prep + o for o in ops], "MODEL-CRASH", shards=shards)
+        bad = [e for e in expanded if e in ("bad-op", "MODEL-CRASH")]
+        if bad:
+            raise MachineryError("stream %s: the spec writer could not expand %d generated case(s)" % (stream, len(bad)))
+        ops = expanded
     seen, uniq = set(), []
     for o in ops:
         if o not in seen:
@@ -622,10 +629,11 @@ def check_property(prop, tier, seed):
         def one(sc):
             name, nq, nt = sc[0], sc[1], sc[2]
             n = nq if tier == "quick" else nt
-            return run_stream(name, seed, n, oracle_fns, shards=(sc[3] if len(sc) > 3 else None))
+            return run_stream(name, seed, n, oracle_fns, shards=(sc[3] if len(sc) > 3 else None), prep=PROPS.PREP.get(name))
         with cf.ThreadPoolExecutor(max_workers=max(1, min(4, len(stream_cfgs)))) as ex:
             results = list(ex.map(one, stream_cfgs))
         for sr in results:
+            sr.model_fails = [x for x in sr.model_fails if not known_match(kf_list, prop, sr.name, x[0], x[2])]
             if sr.model_fails:
                 raise MachineryError("oracle rejects the MODEL's own output on %s: %r (model/spec mismatch in /verif)" % (sr.name, sr.model_fails[0][0][:300]))
             for (op, im, mo) in sr.fails:
@@ -755,7 +763,7 @@ def failing_input_search(prop, cfg, bs, seed, tier, kf_list, oracle_fns):
         n = sc[2] if tier == "quick" else sc[2] * 2
         for s2 in (seed + 1000003, seed + 2000003):
             try:
-                sr = run_stream(name, s2, n, oracle_fns)
+                sr = run_stream(name, s2, n, oracle_fns, prep=PROPS.PREP.get(name))
             except MachineryError as e:
                 log("search: %s" % e)
                 continue
